@@ -268,43 +268,7 @@ func c47DataMAC(c *Ctx) {
 	})
 	c.check(okRegion, "C47.mac-gate", "MAC'd region", f, "the MAC covers the received bytes from the start of the message up to (not including) the MAC field", "the MAC does not cover exactly the received bytes that precede the MAC field")
 	// counter regression precedes decryption and the counter update
-	g2 := c.c47NewGate(func(v ssa.Value) (bool, bool) {
-		x, holds, ok := c47IntTest(v)
-		if !ok {
-			return false, false
-		}
-		call, isCall := x.(*ssa.Call)
-		if !isCall || calleeName(&call.Call) != "bytes.Compare" || len(call.Call.Args) != 2 {
-			return false, false
-		}
-		// Compare(counter, last) > 0, or Compare(last, counter) < 0
-		var P func(int64) bool
-		switch {
-		case m.isFieldOrigin(call.Call.Args[1], "keySlot", "theirLastCtr") && !m.isFieldOrigin(call.Call.Args[0], "keySlot", "theirLastCtr"):
-			P = func(d int64) bool { return d > 0 }
-		case m.isFieldOrigin(call.Call.Args[0], "keySlot", "theirLastCtr") && !m.isFieldOrigin(call.Call.Args[1], "keySlot", "theirLastCtr"):
-			P = func(d int64) bool { return d < 0 }
-		default:
-			return false, false
-		}
-		tI, fI, nT, nF := true, true, 0, 0
-		for _, d := range []int64{-1, 0, 1} {
-			if holds(d) {
-				nT++
-				tI = tI && P(d)
-			} else {
-				nF++
-				fI = fI && P(d)
-			}
-		}
-		switch {
-		case tI && nT > 0:
-			return true, true
-		case fI && nF > 0:
-			return false, true
-		}
-		return false, false
-	})
+	g2 := c.c47NewGate(m.counterGate)
 	cut2 := g2.passDeep(f)
 	okCtr, nDec := len(cut2) > 0, 0
 	var openAt ssa.Instruction
